@@ -3,7 +3,7 @@
 field has been corrupted.  Takes the events of the last quick run of each check (runs/<Cxx>/chunk*.ndjson),
 corrupts one field per event, validates them with the same trace specification and reports how many
 corrupted events were rejected.  A specification that accepts most corrupted events binds nothing.
-usage: tools/binding_selftest.py            (after ./check has run for C01 C04 C09 C12 C13 C14 C17)"""
+usage: tools/binding_selftest.py            (after ./check has run for C01 C04 C09 C10 C12 C13 C16 C17 C20)"""
 import copy
 import glob
 import json
@@ -78,6 +78,33 @@ def c_render(e):       # C12: the recompiled linear model has another first righ
     return e
 
 
+def c_dual(e):         # C20: the first reported shadow price moved by one
+    v = e["sol"]["duals"][0]["v"]
+    v["n"] += v["d"]
+    v["c"] += 10000
+    return e
+
+
+def c_doors(e):        # C16: the value the text door reported, moved by one
+    v = e["T"]["value"]
+    v["n"] += v["d"]
+    v["c"] += 10000
+    return e
+
+
+def c_rewrite(e):      # C10: the simplified tree with its top operator changed / a constant moved
+    t = e["s"]
+    swap = {"add": "sub", "sub": "add", "mul": "add", "div": "mul", "and": "or", "or": "and", "neg": "abs", "abs": "neg", "min": "max", "max": "min",
+            "not": "neg", "xor": "iff", "iff": "xor", "implies": "iff"}
+    if t.get("op") in swap:
+        t["op"] = swap[t["op"]]
+    elif t.get("op") == "num":
+        t["n"] += 3 * (t["d"] or 1)
+    elif t.get("op") == "var":
+        e["s"] = {"op": "neg", "a": t}
+    return e
+
+
 PLANS = [
     ("C01", "C01", os.path.join(core.SPEC, "lin"), "LinTrace.tla", "LinTrace.cfg", "C01,C02",
      lambda e: e.get("out") == "ok" and e.get("exact") and e.get("lm", {}).get("rows") and "g" in e, c_lin),
@@ -91,6 +118,12 @@ PLANS = [
      lambda e: e.get("out") == "ok" and e.get("std", {}).get("rows"), c_std),
     ("C12", "C12", os.path.join(core.SPEC, "render"), "RenderTrace.tla", "RenderTrace.cfg", "C12",
      lambda e: e.get("out") == "ok" and e.get("from_lm", {}).get("out") == "ok" and e["from_lm"]["lm"]["rows"], c_render),
+    ("C20", "C20", os.path.join(core.SPEC, "solve"), "SolveTrace.tla", "SolveTrace.cfg", "C20",
+     lambda e: e.get("entry") == "clarabel" and e.get("out") == "solution" and e["sol"]["duals"] and e["sol"]["duals"][0]["v"].get("snap"), c_dual),
+    ("C16", "C16", os.path.join(core.SPEC, "doors"), "DoorsTrace.tla", "DoorsTrace.cfg", "C16",
+     lambda e: "T" in e and e["T"].get("out") == "solution" and e.get("sense") != "sat" and not e.get("illtyped"), c_doors),
+    ("C10", "C10-t", os.path.join(core.SPEC, "rewrite"), "RewriteTrace.tla", "RewriteTrace.cfg", "C10",
+     lambda e: "s" in e and e["s"].get("op") not in ("panic", "unverifiable"), c_rewrite),
 ]
 
 
